@@ -52,7 +52,7 @@ theorem incOffsetN_run : ∀ (n : Nat) (gs : GS), incOffsetN n gs = .ok ((), bum
 
 theorem bumpN_facts : ∀ (n : Nat) (gs : GS), (bumpN n gs).offset = gs.offset + n ∧ gs.size ≤ (bumpN n gs).size ∧
     (bumpN n gs).labelCount = gs.labelCount ∧ (0 < n → gs.offset + n ≤ (bumpN n gs).size) ∧
-    (bumpN n gs).constMap = gs.constMap := by
+    (bumpN n gs).items = gs.items := by
   intro n
   induction n with
   | zero => intro gs; simp [bumpN]
@@ -271,7 +271,7 @@ theorem genExpr_call_inv (ctx : Ctx) (sys : Int) (f : String) (args : List AExpr
 /-- Generators preserve the frame offset and only grow the frame size and the label counter. -/
 def Eff (gs gs' : GS) : Prop :=
   gs'.offset = gs.offset ∧ gs.size ≤ gs'.size ∧ gs.labelCount ≤ gs'.labelCount ∧
-  (∀ e ∈ gs.constMap, e ∈ gs'.constMap)
+  (∀ e ∈ gs.items, e ∈ gs'.items)
 
 theorem Eff.refl (gs : GS) : Eff gs gs := ⟨rfl, Nat.le_refl _, Nat.le_refl _, fun _ h => h⟩
 
@@ -292,7 +292,7 @@ theorem genConst_eff (reg : Reg) (v : CInt) (gs gs' : GS) (code : Code) (h : gen
     obtain ⟨label, gs1, hp, hr⟩ := bind_ok _ _ _ _ h
     simp only [pure, StateT.pure, Except.pure, Except.ok.injEq, Prod.mk.injEq] at hr
     rw [← hr.2]
-    exact (genConstPool_inv _ _ _ _ hp).2.2.2.2
+    exact items_mono (genConstPool_inv _ _ _ _ hp).2.2.2.2 (fun e he => by rw [genConstPool_strs _ _ _ _ hp]; exact he)
 
 theorem genExpr_neg (ctx : Ctx) (e : AExpr) (reg : Reg) (gs : GS) :
     genExpr ctx (.un .neg e none) reg gs = .ok ([], gs) := by
@@ -338,12 +338,12 @@ theorem genExpr_eff (ctx : Ctx) (e : AExpr) (reg : Reg) :
     (motive_2 := fun args p s => ∀ (gs : GS) (code : Code) (gs' : GS), loadActuals ctx args p s gs = .ok (code, gs') → Eff gs gs')
     (motive_3 := fun args => ∀ (gs : GS) (code : Code) (gs' : GS), genCallActuals ctx args gs = .ok (code, gs') →
         gs'.offset = gs.offset + countCalls args ∧ gs.size ≤ gs'.size ∧ gs.labelCount ≤ gs'.labelCount ∧
-        (∀ e ∈ gs.constMap, e ∈ gs'.constMap))
+        (∀ e ∈ gs.items, e ∈ gs'.items))
   -- num, bool, str, name
   · intro v c reg gs code gs' h; rw [genExpr_num] at h; exact genConst_eff _ _ _ _ _ h
   · intro b c reg gs code gs' h; rw [genExpr_bool] at h; exact genConst_eff _ _ _ _ _ h
   · intro bs reg gs code gs' h; rw [genExpr_str] at h
-    obtain ⟨h1, h2, h3, h4⟩ := genString_inv _ _ _ _ _ h; exact ⟨h1, by omega, by omega, by rw [h4]; exact fun _ he => he⟩
+    obtain ⟨h1, h2, h3, h4⟩ := genString_inv _ _ _ _ _ h; exact ⟨h1, by omega, by omega, (genString_items _ _ _ _ _ h).1⟩
   · intro n reg v gs code gs' h; rw [genExpr_name_const] at h; exact genConst_eff _ _ _ _ _ h
   · intro n reg gs code gs' h
     obtain ⟨_, _, _, h3⟩ := genExpr_name_inv _ _ _ _ _ _ h; subst h3; exact Eff.refl _
